@@ -13,6 +13,7 @@ package main
 
 import (
 	"fmt"
+	"os"
 
 	"verif/sim"
 )
@@ -38,17 +39,25 @@ type schedule struct {
 	dstPolicy int // 0 ample, 1 fixed grant, 2 drawn grants, 3 one byte
 	dstGrant  int
 	drainAll  bool // consumer drains everything after each call (else a drawn part)
-	relocate  bool // relocate the destination when compacting
-	workAtMin bool // supply workbuf_len().min_incl instead of max_incl
-	maxCalls  int
+	// dstAlwaysEmpty: the consumer takes everything and the destination is
+	// compacted before EVERY call, so that each call starts with an empty
+	// destination (otherwise that happens only after "$short write", as in
+	// example/zcat, and output of earlier calls may still sit in front of wi).
+	dstAlwaysEmpty bool
+	// fixedWindow > 0: the destination never offers more than this many bytes
+	// and the loop does NOT grow it after a stall (minimum-window measurement).
+	fixedWindow int
+	relocate    bool // relocate the destination when compacting
+	workAtMin   bool // supply workbuf_len().min_incl instead of max_incl
+	maxCalls    int
 }
 
 func (s *schedule) String() string {
-	if s.tape == nil && s.splitAt < 0 {
+	if s.tape == nil && s.splitAt < 0 && s.fixedWindow == 0 {
 		return "reference(all at once, ample dst)"
 	}
-	return fmt.Sprintf("sched{src=%d/%d lateEOF=%v spurious=%d keepSrc=%d splitAt=%d dstCap=%d dst=%d/%d drainAll=%v relocate=%v workAtMin=%v}",
-		s.srcPolicy, s.srcChunk, s.lateEOF, s.spurious, s.keepSrc, s.splitAt, s.dstCap, s.dstPolicy, s.dstGrant, s.drainAll, s.relocate, s.workAtMin)
+	return fmt.Sprintf("sched{src=%d/%d lateEOF=%v spurious=%d keepSrc=%d splitAt=%d dstCap=%d dst=%d/%d drainAll=%v dstAlwaysEmpty=%v fixedWindow=%d relocate=%v workAtMin=%v}",
+		s.srcPolicy, s.srcChunk, s.lateEOF, s.spurious, s.keepSrc, s.splitAt, s.dstCap, s.dstPolicy, s.dstGrant, s.drainAll, s.dstAlwaysEmpty, s.fixedWindow, s.relocate, s.workAtMin)
 }
 
 func referenceSchedule(outHint int) *schedule {
@@ -58,19 +67,21 @@ func referenceSchedule(outHint int) *schedule {
 // drawSchedule draws a delivery schedule. outHint is an estimate of the output
 // size, used only to keep the number of calls bounded (harness economics).
 func drawSchedule(t *sim.Tape, streamLen, outHint int) *schedule {
-	s := &schedule{tape: t, splitAt: -1, maxCalls: 30000}
+	s := &schedule{tape: t, splitAt: -1, maxCalls: 8000}
 	s.srcPolicy = t.Pick(2, 3, 3, 2)
 	s.srcChunk = 1 + t.Size(4096)
-	if s.srcPolicy == 3 && streamLen > 6000 {
+	if s.srcPolicy == 3 && streamLen > 3000 {
 		s.srcPolicy = 1
-		s.srcChunk = 1 + streamLen/4000
+	}
+	if min := 1 + streamLen/2000; s.srcChunk < min {
+		s.srcChunk = min
 	}
 	s.lateEOF = t.Chance(1, 3)
 	s.spurious = t.Pick(3, 1, 1) * 2
 	s.keepSrc = t.Pick(3, 1, 2)
 	s.dstPolicy = t.Pick(3, 3, 3, 1)
 	s.dstGrant = 1 + t.Size(8192)
-	minGrant := 1 + outHint/3000
+	minGrant := 1 + outHint/1500
 	if s.dstPolicy == 3 && minGrant > 1 {
 		s.dstPolicy = 1
 	}
@@ -78,6 +89,7 @@ func drawSchedule(t *sim.Tape, streamLen, outHint int) *schedule {
 		s.dstGrant = minGrant
 	}
 	s.drainAll = t.Chance(2, 3)
+	s.dstAlwaysEmpty = t.Bool()
 	s.relocate = t.Chance(1, 3)
 	s.workAtMin = t.Bool()
 	return s
@@ -101,11 +113,32 @@ type runResult struct {
 	relocations int
 	keptPrefix  int
 	workGrew    int
-	trace       []string
+	// stalls: "$short write" calls that wrote and consumed nothing into a
+	// completely empty destination window smaller than ampleSpace. The loop
+	// then offers more room, as any caller must. stalledWindow is the largest
+	// window that stalled.
+	stalls        int
+	stalledWindow int
+	// mixedHistory: some call started with earlier output still in front of
+	// the destination's write index although an earlier compaction had already
+	// discarded part of the output (so the decoder sees only a suffix of its
+	// own output there).
+	mixedHistory bool
+	discarded    bool
+	trace        []string
 }
 
+// traceCap bounds the per-run call trace; CSIM_TRACE_ALL=1 lifts it (used to
+// export a failing run's exact call script to a harness-independent program).
+var traceCap = func() int {
+	if os.Getenv("CSIM_TRACE_ALL") != "" {
+		return 1 << 30
+	}
+	return 300
+}()
+
 func (r *runResult) tracef(verbose bool, format string, a ...interface{}) {
-	if verbose && len(r.trace) < 300 {
+	if verbose && len(r.trace) < traceCap {
 		r.trace = append(r.trace, fmt.Sprintf(format, a...))
 	}
 }
@@ -159,6 +192,7 @@ func runStream(d *driver, st *stream, sch *schedule, setup objSetup, verbose boo
 	firstSplitDone := false
 	spuriousLeft := sch.spurious
 	t := sch.tape
+	growTo := 0
 
 	for r.calls < sch.maxCalls {
 		// ---- producer ----
@@ -210,23 +244,39 @@ func runStream(d *driver, st *stream, sch *schedule, setup objSetup, verbose boo
 			r.keptPrefix++
 		}
 		// ---- destination ----
+		if sch.dstAlwaysEmpty && dstWi > 0 {
+			needSpace = true
+		}
+		// The consumer's actions are sent with the call (one round trip); their
+		// effect is deterministic, so it is computed here as well and the
+		// driver's report is compared with it after the call.
+		preDrain, preCompact, preRetain, wantMoved := -1, false, 0, 0
 		if needSpace {
 			k := dstWi - dstRi
-			if t != nil && !sch.drainAll && k > 1 && r.calls > 0 {
+			if t != nil && !sch.drainAll && !sch.dstAlwaysEmpty && k > 1 && r.calls > 0 {
 				k = 1 + t.Draw(k)
 			}
-			dstRi += d.drain(k)
-			retain := uint64(1) << 62 // "everything", as mzcat does when there is no value
-			if histHas {
+			preDrain = k
+			dstRi += k
+			retain := uint64(1) << 30 // "everything", as mzcat does when there is no value
+			if histHas && hist < retain {
 				retain = hist
 			}
 			if dstRi > 0 {
 				if retain > uint64(dstWi) {
 					retain = uint64(dstWi)
 				}
-				moved := d.compact(int(retain), sch.relocate && t != nil)
-				dstWi -= moved
-				dstRi -= moved
+				preCompact, preRetain = true, int(retain)
+				from := dstRi
+				if dstWi-preRetain < from {
+					from = dstWi - preRetain
+				}
+				wantMoved = from
+				dstWi -= from
+				dstRi -= from
+				if from > 0 {
+					r.discarded = true
+				}
 				if sch.relocate && t != nil {
 					r.relocations++
 				}
@@ -249,16 +299,37 @@ func runStream(d *driver, st *stream, sch *schedule, setup objSetup, verbose boo
 				space = 1
 			}
 		}
+		if sch.fixedWindow > 0 {
+			if space > sch.fixedWindow {
+				space = sch.fixedWindow
+			}
+		} else if growTo > 0 {
+			// After a stall a caller has to offer more room than last time.
+			if g := dstCap - dstWi; growTo > g {
+				growTo = g
+			}
+			if space < growTo {
+				space = growTo
+			}
+		}
 		if space == 0 {
 			r.giveUp = "destination full and cannot be compacted (history must be retained)"
 			return r
+		}
+		if dstWi > 0 && r.discarded {
+			r.mixedHistory = true
 		}
 
 		src := data[bufStart:delivered]
 		ri0 := r.consumed - bufStart
 		wasEmptyDst := dstWi == 0 && dstRi == 0
-		obs := d.call(callArgs{src: src, srcRi: ri0, closed: closed, pos: uint64(bufStart), dstSpace: space, workLen: work})
+		obs := d.call(callArgs{src: src, srcRi: ri0, closed: closed, pos: uint64(bufStart), dstSpace: space, workLen: work,
+			preDrain: preDrain, preCompact: preCompact, retain: preRetain, relocate: preCompact && sch.relocate && t != nil})
 		r.calls++
+		if (preDrain >= 0 && obs.drained != preDrain) || (preCompact && obs.moved != wantMoved) {
+			fmt.Fprintf(os.Stderr, "csim: harness inconsistency: drain %d/%d compaction %d/%d\n", obs.drained, preDrain, obs.moved, wantMoved)
+			os.Exit(2)
+		}
 		r.tracef(verbose, "call %d: src[%d:%d) ri=%d closed=%v dst wi=%d space=%d work=%d -> %q consumed+%d wrote %d",
 			r.calls, bufStart, delivered, ri0, closed, dstWi, space, work, obs.status, obs.srcRi-ri0, len(obs.out))
 
@@ -311,6 +382,23 @@ func runStream(d *driver, st *stream, sch *schedule, setup objSetup, verbose boo
 				r.unjustified = append(r.unjustified, fmt.Sprintf("call %d: %q with nothing written into an empty destination of %d bytes", r.calls, s, space))
 				r.final, r.complete = s, true
 				return r
+			}
+			if wasEmptyDst && len(obs.out) == 0 && obs.srcRi == ri0 {
+				// No progress at all with this window.
+				r.stalls++
+				if space > r.stalledWindow {
+					r.stalledWindow = space
+				}
+				if sch.fixedWindow > 0 {
+					r.giveUp = fmt.Sprintf("no progress with a %d-byte destination window", space)
+					return r
+				}
+				growTo = 2 * space
+				if growTo < 16 {
+					growTo = 16
+				}
+			} else {
+				growTo = 0
 			}
 			needSpace = true
 		case s == suspShortWorkbuf:
